@@ -1,7 +1,7 @@
 #!/bin/sh
 # tools/confirm_seed.sh <PROP> <k> : confirm a seeded change from /tmp/seed/<PROP>/<k> in a scratch worktree of /repo HEAD
 # (demo passes clean / fails patched, pinned test-suite unchanged with the patch) and store it under /verif/seeded/<PROP>-<k>/
-ID=$1; K=$2; SRC=/tmp/seed/$ID/$K; WT=/tmp/cs_${ID}_$K; OUT=/verif/seeded/$ID-$K
+ID=$1; K=$2; SRC=${SEEDROOT:-/tmp/seed}/$ID/${SRCK:-$K}; WT=/tmp/cs_${ID}_$K; OUT=/verif/seeded/$ID-$K
 [ -f $SRC/patch.diff ] || { echo "no patch in $SRC"; exit 1; }
 git -C /repo worktree remove --force $WT >/dev/null 2>&1; rm -rf $WT
 git -C /repo worktree add --detach $WT HEAD >/dev/null 2>&1 || exit 1
